@@ -405,8 +405,8 @@ fn more_family<
                     format!("churn_help{}:{}", ["", "2", "_cas"][kind as usize], path),
                     match kind {
                         0 => &["C11", "C03"],
-                        1 => &["C12", "C11"],
-                        _ => &["C05", "C11"],
+                        1 => &["C12"],
+                        _ => &["C05"],
                     },
                     mode,
                     4,
@@ -507,12 +507,14 @@ fn more_family<
             out.push(x);
             let mut x = inst(
                 format!("churn_two_rcu:{}", path),
-                &["C06", "C11"],
+                &["C06"],
                 Fresh,
                 3,
                 "T0{load, exit} done; X{first use: rcu} || Y{first use: rcu} || W{rcu}",
                 move || h_more::churn_two::<S>(true),
             );
+            // three rcu loops with weak exchanges: spurious failures are enumerated elsewhere
+            x.bounds_quick = Some((2, 1, 0));
             x.bounds_thorough = Some((2, 2, 0));
             out.push(x);
         }
